@@ -363,7 +363,17 @@ func ruleClientReset(c *RC) *RuleResult {
 	})
 	// the event loop handles timer and messages inside the same for loop
 	r.Sites++
-	if len(dbftMethodCalls(loopFn, "OnReceive")) > 0 && len(dbftMethodCalls(loopFn, "OnTimeout")) > 0 {
+	feedsDeep := func(name string) bool {
+		return c.simReaches(loopFn, loopFn.Decl.Body, 0, func(f *FuncInfo, call *ast.CallExpr) bool {
+			for _, x := range dbftMethodCalls(f, name) {
+				if x == call {
+					return true
+				}
+			}
+			return false
+		})
+	}
+	if feedsDeep("OnReceive") && feedsDeep("OnTimeout") {
 		r.ok(loopFn.Name + " feeds OnReceive and OnTimeout")
 	} else {
 		r.fail(loopFn.Name+"/events", c.Prog.Pos(loopFn.Decl), "the event loop does not feed both OnReceive and OnTimeout")
@@ -434,12 +444,11 @@ func ruleClientTip(c *RC) *RuleResult {
 			inLoop := false
 			ast.Inspect(fn.Decl.Body, func(n ast.Node) bool {
 				if fs, ok := n.(*ast.ForStmt); ok {
-					ast.Inspect(fs.Body, func(m ast.Node) bool {
-						if call, ok := m.(*ast.CallExpr); ok && strings.HasSuffix(exprText(call.Fun), "Timer.C") {
-							inLoop = true
-						}
-						return true
-					})
+					// in the loop's body or condition, directly or in a helper of the example called from there
+					isC := func(_ *FuncInfo, call *ast.CallExpr) bool { return strings.HasSuffix(exprText(call.Fun), "Timer.C") }
+					if c.simReaches(fn, fs.Body, 0, isC) || fs.Cond != nil && c.simReaches(fn, fs.Cond, 0, isC) {
+						inLoop = true
+					}
 				}
 				return true
 			})
@@ -634,4 +643,38 @@ func enclosingClauses(fn *FuncInfo, target ast.Node) []ast.Node {
 		return true
 	})
 	return out
+}
+
+// simReaches: some call under node (in fn), or in a function of the example package called from there (to depth 3),
+// satisfies match.
+func (c *RC) simReaches(fn *FuncInfo, node ast.Node, depth int, match func(*FuncInfo, *ast.CallExpr) bool) bool {
+	found := false
+	ast.Inspect(node, func(n ast.Node) bool {
+		if found {
+			return false
+		}
+		if _, ok := n.(*ast.FuncLit); ok {
+			return false
+		}
+		call, ok := n.(*ast.CallExpr)
+		if !ok {
+			return true
+		}
+		if match(fn, call) {
+			found = true
+			return false
+		}
+		if depth < 3 {
+			if fo, _ := typeutil.Callee(fn.Pkg.TypesInfo, call).(*types.Func); fo != nil {
+				if t := c.Prog.Funcs[fo.Origin()]; t != nil && t != fn && t.Pkg.PkgPath == simPath && t.Decl != nil && t.Decl.Body != nil {
+					if c.simReaches(t, t.Decl.Body, depth+1, match) {
+						found = true
+						return false
+					}
+				}
+			}
+		}
+		return true
+	})
+	return found
 }
